@@ -175,7 +175,7 @@ func sv1(a, xs...) { probe("sv1"); return xs }
 func (g *c07Gen) program() string {
 	g.next = 0
 	var body string
-	switch g.r.Intn(8) {
+	switch g.r.Intn(10) {
 	case 0:
 		body = "x, y = " + g.args(2+g.r.Intn(2), 2) + "; probe(x)"
 	case 1:
@@ -188,6 +188,31 @@ func (g *c07Gen) program() string {
 		body = "m = {}; m[" + g.tree(1) + "] = " + g.tree(2) + "; probe(m)"
 	case 5:
 		body = "q = [1, 2]; q[" + g.tree(1) + "] = " + g.tree(2) + "; probe(q)"
+	case 6:
+		// the two-target map read: item and key once each, whether the key is present, bound to nil or missing
+		g.next += 2
+		key := []string{`"k"`, `"n"`, `"zz"`}[g.r.Intn(3)]
+		var kx string
+		switch g.r.Intn(4) {
+		case 0:
+			kx = "probe(" + key + ")"
+		case 1:
+			kx = "s1(probe(" + key + "))"
+		case 2:
+			kx = fmt.Sprintf("(probe(%d) ? probe(%s) : probe(\"other\"))", g.r.Intn(2), key)
+		default:
+			kx = "[probe(" + key + "), probe(0)][0]"
+		}
+		body = "v, ok = probe({\"k\": 1, \"n\": nil})[" + kx + "]; probe(v); probe(ok)"
+	case 7:
+		switch g.r.Intn(3) {
+		case 0:
+			body = "probe(probe({\"k\": " + g.tree(1) + "}).k)"
+		case 1:
+			body = "probe(probe([1, 2, 3, 4])[" + g.tree(1) + ":" + g.tree(1) + ":" + g.tree(1) + "])"
+		default:
+			body = "m = {\"k\": 1}; delete(probe(m), " + g.tree(1) + "); probe(m)"
+		}
 	default:
 		body = "probe(" + g.tree(3) + ")"
 	}
